@@ -255,6 +255,11 @@ func (pv *prover) site(in ssa.Instruction) (kind, desc string, ok bool, how stri
 		return "integer division by zero", desc, false, ""
 	case *ssa.Panic:
 		desc = "panic:" + path(x.X)
+		if x.Pos() == token.NoPos || !x.Pos().IsValid() {
+			if s, isS := constString(x.X); isS && s == "blocking select matched no case" {
+				return "", "", false, "" // compiler-generated arm of a blocking select, unreachable
+			}
+		}
 		// a re-panic of a recovered value is propagation, not a new crash
 		if c, isCall := canon(x.X).(*ssa.Call); isCall {
 			if bi, isB := c.Call.Value.(*ssa.Builtin); isB && bi.Name() == "recover" {
